@@ -181,36 +181,65 @@ def handleNotify (fs : Fields) : String :=
 /-! stream: `stream evs=<ev>;<ev>;…` with `fc~m~b`, `loop`, `wake`, `q~id:size+…`, `empty`, `s~id+…` (stream ack/nack),
 `x~id+…` (outside ack), `r~id+…` (refresh); answers the ids selected by each `q`, then the final state -/
 
-def parseStreamEv (e : String) : Option Stream.Ev :=
+inductive StreamEv where
+  | ev (e : Stream.Ev)
+  /-- a fetch whose query returned `cands` and which sent `sent` (ids) -/
+  | fetch (cands : List (Nat × Nat)) (sent : List Nat)
+
+def parseStreamEv (e : String) : Option StreamEv :=
   match e.splitOn "~" with
   | ["fc", m, b] => match m.toInt?, b.toInt? with
-    | some m, some b => some (.setFc m b)
+    | some m, some b => some (.ev (.setFc m b))
     | _, _ => none
-  | ["loop"] => some .loop
-  | ["wake"] => some (.wake false)
-  | ["spurious"] => some (.wake true)
-  | ["empty"] => some .fetchEmpty
-  | ["q", l] => (pairList l "+").map Stream.Ev.query
-  | ["s", l] => (natList l "+").map Stream.Ev.settle
-  | ["x", l] => (natList l "+").map Stream.Ev.extSettle
-  | ["r", l] => (natList l "+").map Stream.Ev.refresh
+  | ["loop"] => some (.ev .loop)
+  | ["wake"] => some (.ev (.wake false))
+  | ["spurious"] => some (.ev (.wake true))
+  | ["empty"] => some (.ev .fetchEmpty)
+  | ["q", l, snt] => match pairList l "+", natList snt "+" with
+    | some c, some s => some (.fetch c s)
+    | _, _ => none
+  | ["s", l] => (natList l "+").map fun x => .ev (.settle x)
+  | ["x", l] => (natList l "+").map fun x => .ev (.extSettle x)
+  | ["r", l] => (natList l "+").map fun x => .ev (.refresh x)
   | _ => none
 
+def sameSet (a b : List Nat) : Bool := a.all b.contains && b.all a.contains
+
+/-- what the fetch in flight (or, if none, the one the sender would start now) selects -/
+def selectNow (s : Stream.St) (cands : List (Nat × Nat)) : Option (Stream.St × List Nat) :=
+  let s := if s.budget.isSome then s else Stream.step (Stream.step s (.wake true)) .loop
+  match s.budget with
+  | some (m, b, strict) => some (s, (Stream.select strict b (cands.take m) 0 0).map (·.1))
+  | none => none
+
+/-- The streamer's goroutines race: between the harness's event and the fetch that reflects it the
+    sender may have made further passes (with the budget it computed before the event took effect).
+    A fetch that sent nothing is therefore always accepted (whether something *should* have been sent
+    is the no-stall oracle's business); a fetch that sent something must be what the model selects
+    with the budget in flight or with the budget of a fresh pass. -/
 def handleStream (fs : Fields) : String :=
   match (splitNE ((fget fs "evs").getD "") ";").mapM parseStreamEv with
   | none => "ERROR bad stream line"
   | some evs =>
-    let rec go (s : Stream.St) (evs : List Stream.Ev) (acc : List String) : Stream.St × List String :=
+    let rec go (s : Stream.St) (evs : List StreamEv) (acc : List String) : Stream.St × List String :=
       match evs with
       | [] => (s, acc.reverse)
-      | e :: r =>
-        let s' := Stream.step s e
-        match e, s.budget with
-        | .query cands, some (m, b, strict) =>
-          let sel := Stream.select strict b (cands.take m) 0 0
-          go s' r ("+".intercalate (sel.map fun x => toString x.1) :: acc)
-        | .query _, none => go s' r ("nofetch" :: acc)
-        | _, _ => go s' r acc
+      | .ev e :: r => go (Stream.step s e) r acc
+      | .fetch cands sent :: r =>
+        if sent.isEmpty then go (Stream.step s .fetchEmpty) r ("ok" :: acc)
+        else
+          match selectNow s cands with
+          | some (s1, sel) =>
+            if sameSet sel sent then go (Stream.step s1 (.query cands)) r ("ok" :: acc)
+            else
+              -- a fresh pass of the sender
+              let s2 := Stream.step (Stream.step (Stream.step s .fetchEmpty) (.wake true)) .loop
+              match selectNow s2 cands with
+              | some (s3, sel2) =>
+                if sameSet sel2 sent then go (Stream.step s3 (.query cands)) r ("ok" :: acc)
+                else go (Stream.step s3 (.query cands)) r (("bad:" ++ "+".intercalate (sel.map toString) ++ "/" ++ "+".intercalate (sel2.map toString)) :: acc)
+              | none => go s2 r ("bad:nofetch" :: acc)
+          | none => go s r ("bad:nofetch" :: acc)
     let (s, sels) := go {} evs []
     "R " ++ ";".intercalate sels ++ "|w=" ++ (if s.waiting then "1" else "0") ++ "|f=" ++ (if s.budget.isSome then "1" else "0") ++
       "|p=" ++ "+".intercalate (s.pending.map fun x => toString x.1)
